@@ -35,6 +35,8 @@ def run_standard(mod, ctx):
     cfgs = mod.configs(ctx.tier)
     if hasattr(mod, "gen"):
         lines = mod.gen(ctx, ctx.tier, rng)
+        if hasattr(mod, "post_model"):
+            lines = mod.post_model(ctx, lines, lambda q: vcore.run_model(ctx, q))
         for ln in lines:
             vcore.note_case(ctx, ln)
         ctx.samples = lines[:3] + lines[len(lines) // 2: len(lines) // 2 + 3] + lines[-2:]
